@@ -43,6 +43,7 @@ class C17(Prop):
         "AwProofs.C17.parse_total",
         "AwProofs.C17.parse_error_kind",
         "AwProofs.C17.resolve_error_kind",
+        "AwProofs.C17.run_error_kind",
     ]
     TRUSTED = [
         "harness/registry_dump.py (introspection of aw_query.functions: signatures, annotations, decorator chain) generates AwModel/Query/RegistryGen.lean on every run",
